@@ -25,6 +25,10 @@ RULE = (
     'k spinner activities are made runnable in the very turn in which the operation is issued; '
     'oracle: when the operation completes successfully at the same virtual time, every spinner '
     'has had a turn. The thorough tier repeats each pair next to random surrounding programs. '
+    'Second family: generated programs over the whole API (quick 600, thorough 12000, with '
+    'injected cancellations) in which the interpreter reports every single wait / set / put / '
+    'get / close / transfer / increase / decrease / await task that completes within the '
+    'activation in which it was issued. '
     'non-trivial = pair completed without the clock advancing; distinct = (pair, k, surrounding)'
 )
 LEVEL_TEXT = (
@@ -34,7 +38,7 @@ LEVEL_TEXT = (
     'pairs is enumerated completely in both tiers.')
 TECHNIQUE = 'runtime monitoring: spinner-turn counter around each operation (enumerated operation x state x competitors)'
 ASSUMPTIONS = ['only operations that complete successfully are judged (statement)']
-REQUIRED_STATS = ['pairs_judged', 'same_time_completions']
+REQUIRED_STATS = ['pairs_judged', 'same_time_completions', 'general_ops_checked']
 EXHAUSTIVE = False
 
 KS = (1, 3, 8)
@@ -144,6 +148,40 @@ def pairs():
         f, g = Flag(), Flag()
         await f.set()
         await b.probe('await a|b[true]', lambda: _aw(f | g))
+
+    # one connective object shared by an until-block / another connective (which observe it)
+    # and a plain waiter that arrives in the very instant in which it became true
+    for how in ('or', 'and'):
+        for observer in ('until', 'operand', 'waiter'):
+            def make(how=how, observer=observer):
+                label = 'await shared a%sb[observed by %s, became true this instant]' % (
+                    '|' if how == 'or' else '&', observer)
+
+                async def case(b):
+                    f, g, other = Flag(), Flag(), Flag()
+                    if how == 'and':
+                        await g.set()
+                    conn = (f | g) if how == 'or' else (f & g)
+
+                    async def observe():
+                        if observer == 'until':
+                            async with until(conn):
+                                await eternity
+                        elif observer == 'operand':
+                            await (conn & ~other)
+                        else:
+                            await conn
+
+                    async def setter():
+                        await (time + 1)
+                        await f.set()
+                    b.scope.do(observe())
+                    b.scope.do(setter())
+                    await instant           # both have started and are suspended
+                    await (time + 1)        # due after the setter, in the same time step
+                    await b.probe(label, lambda: _aw(conn))
+                return label, case
+            out.append(make())
 
     @add('await a&(b|c)[true]')
     async def _(b):
@@ -600,18 +638,47 @@ def all_pairs():
     return PAIRS
 
 
+GENERAL = {'quick': 600, 'thorough': 12000}
+
+
 def n_cases(tier):
     base = len(all_pairs()) * len(KS)
-    return base if tier == 'quick' else base * 40
+    return (base if tier == 'quick' else base * 40) + GENERAL[tier]
 
 
 def make_case(seed, index, tier):
     base = len(all_pairs()) * len(KS)
+    enumerated = base if tier == 'quick' else base * 40
+    if index >= enumerated:
+        return {'seed': seed, 'index': index, 'tier': tier, 'general': index - enumerated}
     return {'seed': seed, 'index': index, 'tier': tier, 'pair': (index % base) // len(KS),
             'k': KS[index % len(KS)], 'surround': index // base}
 
 
+def run_general(case):
+    """second family: generated programs over the whole API (states that nobody enumerated:
+    shared and observed conditions, contended streams, nested blocks, injected cancellations);
+    the interpreter reports every single operation of the statement that completes within the
+    activation in which it was issued"""
+    from . import common
+    rng = random.Random('%s/%s/c20-general' % (case['seed'], case['general']))
+    program = Gen(rng, max_roots=4, max_steps=5, max_depth=3,
+                  weights={'wait': 14, 'setflag': 8, 'settracked': 6, 'put': 6, 'get': 5,
+                           'close': 2, 'transfer': 4, 'resource': 4, 'await_task': 5,
+                           'until': 8, 'scope': 6}).program()
+    result = common.explore(case, program, rng,
+                            lambda mechanism: mechanism.startswith(('c20:', 'harness')),
+                            lambda env, sess: bool(sess.stats.get('c20_ops_checked')),
+                            quick_injections=4, thorough_victims=2, double=4)
+    stats = result['stats']
+    result['stats'] = {'general_programs': 1, 'general_ops_checked': stats['c20_ops_checked'],
+                       'activations': stats['activations']}
+    return result
+
+
 def run_case(case):
+    if 'general' in case:
+        return run_general(case)
     name, fn = all_pairs()[case['pair']]
     sess = Session(budget_per_step=50000, budget_total=500000)
     bench = Bench(sess, case['k'])
